@@ -8,7 +8,9 @@
 //                      overwrites that key only and returns the old value; remove deletes that key
 //                      only and returns the old value.  (redb: Table::{get, insert, remove}.)
 //   HashMap<K, V>      a finite map with entry().or_default(), get_mut, iteration in unspecified
-//                      order (postconditions in the harnesses are order-insensitive).
+//                      order (postconditions in the harnesses are order-insensitive); HashSet<T> a
+//                      finite set.  Both live in fixed arrays of capacity 4 (contracts/support/
+//                      hashmap_shim.rs): heap-backed shims cost CBMC tens of GB.
 //   mpsc::Sender<T>    delivers in order; blocking_send never fails while the receiver lives.
 //   Client             the bitcoind RPC client: not reached by the functions under contract.
 #![allow(dead_code)]
@@ -236,125 +238,92 @@ impl<'tx, K: Slot, V: Slot> Table<'tx, K, V> {
   }
 }
 
-/// SHIM for std::collections::HashMap inside the kernels: association list
-#[derive(Clone, Debug, Default, PartialEq)]
-pub struct HashMap<K, V> {
-  pub items: Vec<(K, V)>,
+#[path = "/verif/contracts/support/hashmap_shim.rs"]
+mod hashmap_shim;
+pub use hashmap_shim::{Entry, HashMap};
+
+/// SHIM for std::collections::HashSet (Settings::hidden): a list without duplicates in a fixed array
+/// (capacity 4; exceeding it fails an assertion)
+pub struct HashSet<T> {
+  len: usize,
+  items: [std::mem::MaybeUninit<T>; 4],
 }
 
-pub struct Entry<'a, K, V> {
-  map: &'a mut HashMap<K, V>,
-  key: K,
+impl<T> Default for HashSet<T> {
+  fn default() -> Self {
+    Self { len: 0, items: [const { std::mem::MaybeUninit::uninit() }; 4] }
+  }
 }
 
-impl<K: PartialEq, V> HashMap<K, V> {
-  pub fn new() -> Self {
-    Self { items: Vec::new() }
+impl<T> std::fmt::Debug for HashSet<T> {
+  fn fmt(&self, f: &mut std::fmt::Formatter) -> std::fmt::Result {
+    write!(f, "HashSet(len {})", self.len)
   }
-  fn position(&self, k: &K) -> Option<usize> {
-    let mut i = 0;
-    while i < self.items.len() {
-      if self.items[i].0 == *k {
-        return Some(i);
-      }
-      i += 1;
-    }
-    None
-  }
-  pub fn entry(&mut self, key: K) -> Entry<'_, K, V> {
-    Entry { map: self, key }
-  }
-  pub fn get(&self, k: &K) -> Option<&V> {
-    match self.position(k) {
-      Some(i) => Some(&self.items[i].1),
-      None => None,
-    }
-  }
-  pub fn get_mut(&mut self, k: &K) -> Option<&mut V> {
-    match self.position(k) {
-      Some(i) => Some(&mut self.items[i].1),
-      None => None,
-    }
-  }
-  pub fn is_empty(&self) -> bool {
-    self.items.is_empty()
+}
+
+impl<T> HashSet<T> {
+  fn at(&self, i: usize) -> &T {
+    unsafe { self.items[i].assume_init_ref() }
   }
   pub fn len(&self) -> usize {
-    self.items.len()
+    self.len
   }
-  pub fn iter(&self) -> impl Iterator<Item = (&K, &V)> {
-    self.items.iter().map(|(k, v)| (k, v))
+  pub fn is_empty(&self) -> bool {
+    self.len == 0
   }
-}
-
-impl<'a, K: PartialEq, V: Default> Entry<'a, K, V> {
-  pub fn or_default(self) -> &'a mut V {
-    match self.map.position(&self.key) {
-      Some(i) => &mut self.map.items[i].1,
-      None => {
-        self.map.items.push((self.key, V::default()));
-        let n = self.map.items.len();
-        &mut self.map.items[n - 1].1
-      }
-    }
-  }
-}
-
-impl<K, V> IntoIterator for HashMap<K, V> {
-  type Item = (K, V);
-  type IntoIter = std::vec::IntoIter<(K, V)>;
-  fn into_iter(self) -> Self::IntoIter {
-    self.items.into_iter()
-  }
-}
-
-impl<'a, K, V> IntoIterator for &'a HashMap<K, V> {
-  type Item = (&'a K, &'a V);
-  type IntoIter = std::iter::Map<std::slice::Iter<'a, (K, V)>, fn(&'a (K, V)) -> (&'a K, &'a V)>;
-  fn into_iter(self) -> Self::IntoIter {
-    fn split<K, V>(kv: &(K, V)) -> (&K, &V) {
-      (&kv.0, &kv.1)
-    }
-    self.items.iter().map(split as fn(&'a (K, V)) -> (&'a K, &'a V))
-  }
-}
-
-/// SHIM for std::collections::HashSet (Settings::hidden): a list without duplicates
-#[derive(Clone, Debug, Default)]
-pub struct HashSet<T> {
-  pub items: Vec<T>,
 }
 
 impl<T: PartialEq> HashSet<T> {
   pub fn new() -> Self {
-    Self { items: Vec::new() }
-  }
-  pub fn insert(&mut self, v: T) -> bool {
-    if self.contains(&v) {
-      false
-    } else {
-      self.items.push(v);
-      true
-    }
+    Self::default()
   }
   pub fn contains(&self, v: &T) -> bool {
     let mut i = 0;
-    while i < self.items.len() {
-      if self.items[i] == *v {
+    while i < self.len {
+      if self.at(i) == v {
         return true;
       }
       i += 1;
     }
     false
   }
-  pub fn len(&self) -> usize {
-    self.items.len()
+  pub fn insert(&mut self, v: T) -> bool {
+    if self.contains(&v) {
+      false
+    } else {
+      assert!(self.len < 4, "shim HashSet capacity");
+      self.items[self.len] = std::mem::MaybeUninit::new(v);
+      self.len += 1;
+      true
+    }
+  }
+}
+
+impl<T: Clone + PartialEq> Clone for HashSet<T> {
+  fn clone(&self) -> Self {
+    let mut s = Self::default();
+    let mut i = 0;
+    while i < self.len {
+      s.insert(self.at(i).clone());
+      i += 1;
+    }
+    s
   }
 }
 
 impl<T: PartialEq> PartialEq for HashSet<T> {
   fn eq(&self, other: &Self) -> bool {
-    self.items.len() == other.items.len() && self.items.iter().all(|x| other.contains(x))
+    if self.len != other.len {
+      return false;
+    }
+    let mut i = 0;
+    while i < self.len {
+      if !other.contains(self.at(i)) {
+        return false;
+      }
+      i += 1;
+    }
+    true
   }
 }
 
@@ -368,11 +337,29 @@ impl<T: PartialEq> FromIterator<T> for HashSet<T> {
   }
 }
 
+pub struct SetIter<'a, T> {
+  set: &'a HashSet<T>,
+  next: usize,
+}
+
+impl<'a, T> Iterator for SetIter<'a, T> {
+  type Item = &'a T;
+  fn next(&mut self) -> Option<&'a T> {
+    if self.next < self.set.len {
+      let i = self.next;
+      self.next += 1;
+      Some(self.set.at(i))
+    } else {
+      None
+    }
+  }
+}
+
 impl<'a, T> IntoIterator for &'a HashSet<T> {
   type Item = &'a T;
-  type IntoIter = std::slice::Iter<'a, T>;
-  fn into_iter(self) -> Self::IntoIter {
-    self.items.iter()
+  type IntoIter = SetIter<'a, T>;
+  fn into_iter(self) -> SetIter<'a, T> {
+    SetIter { set: self, next: 0 }
   }
 }
 
